@@ -16,6 +16,15 @@ Case lines
   exactr A B U    same main variable, A = Q0*B + R0 with deg R0 < deg B            (rem, divrem, EXACT_SPARSE)
   divides A B     "A divides B"
   uexact M p q | upseudo M p q | udense M exact p q | udivides M p q | udivc M p c   (M = 0: Z, else Z_M, M prime)
+  udivides M p q d   the same question with the cofactor: q = d*p in Z_M[x] (the model side recomputes the product)
+  composite M (block composite_cases): udivides, upseudo, udense 0 for every leading coefficient of the divisor,
+                  uexact / udense 1 only for an invertible one (the model's domain)
+  umultiple M p d    the dividend is the product p*d, computed by the library in Z_M[x]: divides(p, p*d) must be 1 - every M,
+                  every product (also those that lose their leading / lowest term to zero divisors).  Decided by construction.
+                  Over composite M the current code answers 0 for some of them: known finding (finding_id below)
+  pdivides P A Q R c   multivariate divisibility in a context over the PRIME field Z_P: the dividend B = A*Q + R is
+                  computed by the library; A not constant mod P, R = 0 or deg_x R < deg_x A (x = main variable of A), both
+                  mod P; c a constant, non-zero mod P.  Decided by construction: A | B iff R = 0 (Division.v Part III)
 U is the previous content of the pre-used output operands."""
 
 PRIMES = [2, 3, 5, 7, 13, 101, 2**61 - 1]
@@ -374,12 +383,280 @@ def univariate_cases(rng, n):
     return cases
 
 
+# ---------------------------------------------------------------- composite moduli (added after the blocks above)
+COMPOSITES = [4, 6, 8, 9, 10, 12, 15, 16, 25, 27, 35, 49, 100, 2 * 101, 7**5, 2**16, 2**32, 2**64, 2**65, 3**40,
+              3 * (2**61 - 1), (2**31 - 1) * (2**61 - 1), (2**61 - 1)**2, 10**25]
+
+
+def _gcd(a, b):
+    while b:
+        a, b = b, a % b
+    return abs(a)
+
+
+def is_prime(n):
+    if n < 2:
+        return False
+    for q in (2, 3, 5, 7, 11, 13, 17, 19, 23, 29, 31, 37):
+        if n % q == 0:
+            return n == q
+    d, r = n - 1, 0
+    while d % 2 == 0:
+        d //= 2
+        r += 1
+    for a in (2, 3, 5, 7, 11, 13, 17, 19, 23, 29, 31, 37):
+        x = pow(a, d, n)
+        if x in (1, n - 1):
+            continue
+        for _ in range(r - 1):
+            x = x * x % n
+            if x == n - 1:
+                break
+        else:
+            return False
+    return True
+
+
+def zero_divisor(rng, m):
+    """non-zero element of Z_m sharing a factor with m (m composite)"""
+    for _ in range(200):
+        c = uz(rng, m)
+        if c % m and _gcd(c, m) > 1:
+            return c
+    for q in (2, 3, 5, 7, 101, 2**31 - 1, 2**61 - 1):
+        if m % q == 0:
+            return unorm([q], m)[0]
+    return None
+
+
+def unit_of(rng, m):
+    if rng.random() < 0.35:
+        return rng.choice([1, -1])
+    while True:
+        c = uz(rng, m)
+        if c % m and _gcd(c, m) == 1:
+            return c
+
+
+def composite_cases(rng, n):
+    """Z_m[x], m composite: lp_upolynomial_divides must NOT take the exact-division shortcut of the prime fields.
+    Divisors with a zero-divisor / unit / monic leading coefficient; dividends: true multiples by several cofactors
+    (with the cofactor, so that the model side knows the answer), near-multiples, unrelated ones."""
+    cases = []
+    for _ in range(n):
+        m = rng.choice(COMPOSITES)
+        dp = rng.choice([0, 1, 1, 1, 2, 2, 3])
+        p = urand(rng, m, dp)
+        nonunit = rng.random() < 0.6
+        lc = zero_divisor(rng, m) if nonunit else unit_of(rng, m)
+        if lc is None:
+            continue
+        p = unorm(p[:-1] + [lc], m)
+        if rng.random() < 0.3 and len(p) > 1:
+            p = unorm([unit_of(rng, m) if rng.random() < 0.5 else (zero_divisor(rng, m) or 1)] + p[1:], m)   # chosen lowest coefficient
+        if len(p) != dp + 1:
+            continue
+        P = utext(p)
+        for _c in range(rng.choice([1, 2, 2, 3])):
+            d = urand(rng, m, rng.randint(0, 3), dens=rng.choice([0.0, 0.5, 1.0]))
+            if rng.random() < 0.5 and d:
+                d = unorm(d[:-1] + [unit_of(rng, m)], m)       # keeps the degree of the product
+            q = umul(d, p, m)
+            if not d:
+                continue
+            cases.append("udivides %d %s %s %s" % (m, P, utext(q), utext(d)))
+            if q and len(q) >= len(p):
+                k = rng.random()
+                if k < 0.25:
+                    cases.append("upseudo %d %s %s" % (m, utext(q), P))
+                elif k < 0.4:
+                    cases.append("udense %d 0 %s %s" % (m, utext(q), P))
+                elif k < 0.6 and not nonunit:
+                    cases.append("uexact %d %s %s" % (m, utext(q), P))
+                    cases.append("udense %d 1 %s %s" % (m, utext(q), P))
+            # near-multiple: remainder of lower degree, or one coefficient moved
+            k = rng.random()
+            if k < 0.35 and q:
+                if dp > 0 and rng.random() < 0.6:
+                    q2 = uadd(q, urand(rng, m, rng.randint(0, dp - 1)), m)
+                else:
+                    e = [0] * rng.randint(0, len(q) - 1) + [rng.choice([1, -1, 2, 3])]
+                    q2 = uadd(q, e, m)
+                cases.append("udivides %d %s %s" % (m, P, utext(q2)))
+                if q2 and len(q2) >= len(p) and rng.random() < 0.3:
+                    cases.append("upseudo %d %s %s" % (m, utext(q2), P))
+                    if not nonunit:
+                        cases.append("uexact %d %s %s" % (m, utext(q2), P))
+        if rng.random() < 0.3:
+            q = urand(rng, m, rng.randint(0, 5))               # unrelated dividend
+            cases.append("udivides %d %s %s" % (m, P, utext(q)))
+            if len(q) >= len(p) and rng.random() < 0.5:
+                cases.append("udense %d 0 %s %s" % (m, utext(q), P))
+    return cases
+
+
+# ---------------------------------------------------------------- multivariate divisibility over a prime field
+def pmodp(a, p):
+    lb = -((p - 1) // 2)
+    r = {}
+    for mo, c in a.items():
+        v = ((c - lb) % p) + lb
+        if v:
+            r[mo] = v
+    return r
+
+
+def plift(rng, a, p):
+    """other representatives of some coefficients"""
+    return {mo: c + p * rng.choice([0, 0, 1, -1, 3]) for mo, c in a.items()}
+
+
+def pdivides_cases(rng, n):
+    cases = []
+    for _ in range(n):
+        p = rng.choice([2, 3, 3, 5, 5, 7, 7, 13, 13, 101, 101, 2**61 - 1, 2**61 - 1])
+        x = rng.choice([0, 1, 1, 2, 2])
+        lower = list(range(x))
+        da = rng.choice([1, 1, 2, 2, 3])
+        k = rng.random()
+        if k < 0.3:
+            lc = pconst(rng.choice([2, -2, 3, 4, 5, -6, 12, 50]))     # a unit of Z_p that is not one of Z
+        else:
+            lc = lead_choice(rng, lower)
+        a = upoly_in(rng, x, lower, da, lc=lc)
+        if rng.random() < 0.25:
+            a = pmul(a, lead_choice(rng, lower))                       # content in the lower variables / a constant
+        a = pmodp(a, p)
+        if not a or pdeg(a, x) < 1:
+            continue
+        da = pdeg(a, x)
+        high = rng.random() < 0.2
+        qv = x + 1 if high else x
+        q = upoly_in(rng, qv, list(range(qv)), rng.randint(0, 3), dense=rng.choice([0.0, 0.4, 1.0]),
+                     lc=lead_choice(rng, list(range(qv))))
+        q = pmodp(q, p)
+        if not q:
+            q = pconst(1)
+        if rng.random() < 0.5:
+            r = {}
+        else:
+            dr = rng.randint(0, da - 1) if rng.random() < 0.6 else 0
+            r = upoly_in(rng, x, lower, dr, dense=0.5)
+            if high and rng.random() < 0.5:
+                r = pmul(r, pvar(x + 1, rng.randint(1, 2)))
+            r = pmodp(r, p)
+            if r and pdeg(r, x) >= da:
+                continue
+        c = rng.choice([2, -2, 3, -3, 4, 5, 6, 10, -1, 50, 2**31 - 1])
+        if c % p == 0:
+            c = 1
+        if rng.random() < 0.2:
+            a, q = plift(rng, a, p), plift(rng, q, p)
+            r = plift(rng, r, p)
+        cases.append("pdivides %d %s %s %s %d" % (p, ptext(a), ptext(q), ptext(r), c))
+    return cases
+
+
+# ---------------------------------------------------------------- true multiples by construction, every ring
+def ulow(p):
+    for i, c in enumerate(p):
+        if c:
+            return i, c
+    return 0, 0
+
+
+def killer(rng, c, m):
+    """non-zero e with c*e = 0 in Z_m (c a zero divisor), or None"""
+    g = _gcd(c, m)
+    if g <= 1 or c % m == 0:
+        return None
+    e = (m // g) * rng.choice([1, 1, 2, 3, -1])
+    return unorm([e], m)[0] if e % m else unorm([m // g], m)[0]
+
+
+def umultiple_cases(rng, n):
+    cases = []
+    for _ in range(n):
+        k = rng.random()
+        m = 0 if k < 0.15 else (rng.choice(PRIMES) if k < 0.3 else rng.choice(COMPOSITES))
+        comp = m and m not in PRIMES
+        dp = rng.choice([0, 1, 1, 1, 2, 2, 3])
+        p = urand(rng, m, dp)
+        if comp:
+            j = rng.random()
+            lc = zero_divisor(rng, m) if j < 0.55 else unit_of(rng, m)
+            if lc is None:
+                continue
+            p = unorm(p[:-1] + [lc], m)
+            if rng.random() < 0.35 and len(p) > 1:
+                p = unorm([zero_divisor(rng, m) or 1] + p[1:], m)
+            if rng.random() < 0.15 and len(p) > 1:
+                p = unorm([0] * rng.randint(1, 2) + p[1:], m)            # x^k | p
+        if not p:
+            continue
+        for _c in range(rng.choice([1, 2, 3])):
+            d = urand(rng, m, rng.randint(0, 4), dens=rng.choice([0.0, 0.5, 1.0]))
+            if not d:
+                continue
+            if comp:
+                j = rng.random()
+                if j < 0.25:
+                    e = killer(rng, p[-1], m)                            # the leading term of the product vanishes
+                    if e is not None:
+                        d = unorm(d[:-1] + [e], m)
+                elif j < 0.45:
+                    e = killer(rng, ulow(p)[1], m)                       # the lowest term of the product vanishes
+                    if e is not None:
+                        d = unorm([e] + d[1:], m)
+                elif j < 0.55:
+                    d = unorm(d[:-1] + [unit_of(rng, m)], m)
+            if d:
+                cases.append("umultiple %d %s %s" % (m, utext(p), utext(d)))
+    return cases
+
+
+def uparse(s):
+    return [int(c) for c in s.split(",")]
+
+
+def product_drops(m, p, d):
+    """(leading term of p*d vanished in Z_m, lowest term vanished); p, d non-zero, normalised"""
+    lead = (p[-1] * d[-1]) % m == 0 if m else False
+    low = (ulow(p)[1] * ulow(d)[1]) % m == 0 if m else False
+    return lead, low
+
+
+def finding_id(case, c_out, m_out):
+    """Known finding udivides-composite-zero-divisors: composite M, a true multiple by construction answered 0 by the library
+    AND by the faithful model of the current code, and zero divisors cancelled the leading or the lowest term of the product
+    (deg(p*d) < deg p + deg d, or the lowest monomial of p*d is not the product of the lowest monomials).  Products that
+    keep both terms are answered 1 by the current code (early exits sound, pseudo-division returns lc^k*d); a 0 there, a 0
+    over Z or a prime field, or a 0 the faithful model does not reproduce stays a VIOLATION."""
+    t = case.split()
+    if t[0] != "umultiple" or not c_out or not m_out:
+        return None
+    if c_out.split()[0] != "0" or "expected 1 got 0 faithful-model=0" not in m_out:
+        return None
+    m = int(t[1])
+    if m == 0 or is_prime(m):
+        return None
+    p, d = unorm(uparse(t[2]), m), unorm(uparse(t[3]), m)
+    if not p or not d:
+        return None
+    lead, low = product_drops(m, p, d)
+    return "udivides-composite-zero-divisors" if (lead or low) else None
+
+
 def generate(rng, tier, corpus_only=False):
     n = 1 if tier == "quick" else 10
     cases = []
     cases += multivariate_cases(rng, 2500 * n)
     cases += integer_cases(rng, 120 * n)
     cases += univariate_cases(rng, 2500 * n)
+    # later blocks are appended here, so that the random stream of the blocks above does not shift
+    cases += composite_cases(rng, 450 * n)
+    cases += pdivides_cases(rng, 700 * n)
+    cases += umultiple_cases(rng, 700 * n)
     return cases
 
 
@@ -403,7 +680,24 @@ def tag(case):
         if op == "divides":
             a, b = pparse(t[1]), pparse(t[2])
             return "divides:" + ("const" if ptop(a) is None else ("same" if ptop(a) == ptop(b) else "lowvar"))
+        if op == "pdivides":
+            a, q, r = pparse(t[2]), pparse(t[3]), pmodp(pparse(t[4]), int(t[1]))
+            x = ptop(a)
+            lcc = pcoeff(a, x, pdeg(a, x))
+            return ("pdivides:" + ("R0" if not r else "Rnz") + (":highQ" if ptop(q) is not None and ptop(q) > x else "")
+                    + (":lc-const" if ptop(lcc) is None else ":lc-poly"))
+        if op == "umultiple":
+            m = int(t[1])
+            if m == 0 or is_prime(m):
+                return op + (":Z" if m == 0 else ":Zp")
+            p, d = unorm(uparse(t[2]), m), unorm(uparse(t[3]), m)
+            lead, low = product_drops(m, p, d)
+            return (op + ":Zm-composite" + (":lc-zero-divisor" if _gcd(p[-1], m) > 1 else ":lc-unit")
+                    + (":lead-dropped" if lead else "") + (":low-dropped" if low else "") + ("" if lead or low else ":kept"))
         if op[0] == "u":
+            if t[1] != "0" and not is_prime(int(t[1])):
+                lc = int(t[3].split(",")[-1]) if op in ("uexact", "upseudo") else int(t[4 if op == "udense" else 2].split(",")[-1])
+                return op + ":Zm-composite" + (":lc-zero-divisor" if _gcd(lc, int(t[1])) > 1 else ":lc-unit")
             return op + (":Z" if t[1] == "0" else ":Zp")
     except Exception:
         pass
@@ -417,6 +711,8 @@ def nontrivial(case):
     t = case.split()
     if t[0] == "divides":
         return t[1] not in ("0", "1", "-1") and t[2] != "0"
+    if t[0] in ("udivides", "umultiple"):
+        return "," in t[2] or "," in t[3]
     if t[0][0] == "u":
         return "," in t[-1] or "," in t[-2]
     return True
@@ -429,15 +725,28 @@ def extra_coverage(cases, couts, mouts):
             for k in same:
                 if k in m:
                     same[k] += 1
-    return {"model_reproduces_free_choice": same}
+    comp = {"multiple=kept answer=1": 0, "multiple=dropped answer=1": 0, "multiple=dropped answer=0": 0}
+    for m in mouts:
+        if m:
+            for k in comp:
+                if k in m:
+                    comp[k] += 1
+    return {"model_reproduces_free_choice": same, "udivides_true_multiples_with_cofactor": comp}
 
 
 RULE = ("seeded structured generator gen/C02.py (corpus first): pairs A = Q0*B + R0 with chosen degree gaps, non-primitive "
         "divisors, polynomial leading coefficients, lower-variable and integer divisors, exact multiples, A = B; "
-        "Z_p[x] for p in {2,3,5,7,13,101,2^61-1}; distinct = distinct case line; non-trivial = at least one reduction step")
+        "Z_p[x] for p in {2,3,5,7,13,101,2^61-1}; Z_m[x] for 24 composite m (divides / pseudo-division with zero-divisor and unit "
+        "leading coefficients; true multiples carry their cofactor); umultiple: divides(p, p*d) = 1 by construction over Z, Z_p, composite Z_m, all products; divisibility in Z_p[x0,x1,x2] on B = A*Q + R; "
+        "distinct = distinct case line; non-trivial = at least one reduction step")
 ASSUMPTIONS = ["multivariate model and theorems are over Z with the default variable order x0 < x1 < ... (the order only decides "
-               "which variable is the main one); multivariate polynomials over Z_p are not modelled",
-               "Z_M[x] is modelled for an invertible leading coefficient of the divisor (always the case for M prime)"]
+               "which variable is the main one); the multivariate division code over Z_p is not modelled: lp_polynomial_divides / "
+               "lp_polynomial_div in a Z_p context are checked on dividends B = A*Q + R whose answer is decided by construction "
+               "(C02_pdivides_decision)",
+               "Z_M[x]: exact division is modelled for an invertible leading coefficient of the divisor (always the case for M prime); "
+               "pseudo-division and lp_upolynomial_divides for every M and every divisor.  Over a COMPOSITE M the model of "
+               "lp_upolynomial_divides mirrors the code; KNOWN FINDING udivides-composite-zero-divisors: code and model answer 0 for some "
+               "true multiples whose product loses its leading or lowest term to zero divisors (case kind umultiple, finding_id)"]
 TRUSTED = ["reference multivariate arithmetic MPoly.v (mp_add, mp_mul, mp_coeffs, mp_of_coeffs): its ring laws against "
            "a denotation are property C01's subject; C02 proves and uses only its evaluation homomorphism"]
 TIMEOUT = 1500
